@@ -103,7 +103,7 @@ class Clock(object):
         time_util.time, time_util.datetime = self._saved
 
     def selfcheck(self):
-        got = calendar.timegm(time_util.utc_now().timetuple()) if hasattr(time_util, "utc_now") else None
+        got = time_util.utc_now() if hasattr(time_util, "utc_now") else None
         inst = time_util.instant()
         want = _time.strftime("%Y-%m-%dT%H:%M:%SZ", _time.gmtime(self.now))
         ahead = calendar.timegm(time_util.time_in_a_while(seconds=5).timetuple())
